@@ -33,6 +33,7 @@ namespace
 
     Counter c_calls("sim", "calls"), c_ticks("sim", "ticks(simulated_time)");
     Counter c_blocks("sim", "basic_blocks_executed"), p_over10k_blocks("probe", "call_executed_more_than_2000_basic_blocks"), cl_blocks("info", "block_budget_exceeded(only_on_violation)");
+    Counter p_blast("probe", "calls_with_wide_independent_lanes(blast_family)");
     Counter p_nearpi("probe", "principal_lane_near_a_multiple_of_pi/2(continued_fraction_worst_case)");
     Counter cl_budget("clause", "call_returned_within_tick_and_block_budget"), cl_backstop("clause", "plan_finished_under_cpu_watchdog");
     Counter p_tick_calls("probe", "calls_that_reached_a_tick_site"), p_mixed("probe", "calls_with_mixed_lane_vectors"), p_special("probe", "calls_with_inf_nan_or_denormal_principal"),
@@ -723,6 +724,76 @@ namespace
 
         // ------------------------------------------------------------------ growth table (information only)
         // ticks for principal magnitudes +-2^k on the functions that contain tick sites; any budget overrun is still a violation
+        // "wide independent lanes": for every float/double function on the widest architecture, many calls in which every lane is an independent
+        // random value (random significand; exponents either all near one seeded centre or anywhere). Loops of the "iterate until every lane has
+        // converged" kind only misbehave for particular COMBINATIONS of ordinary lanes (each lane alone, broadcast, or next to 1.0 is fine), and
+        // such combinations are rare (seeded change c14i: 3e-6 per 8-lane batch), so this family trades the variety of the main generator for volume.
+        template <class W>
+        bool blast(const sim::Args& args, W& w)
+        {
+            const uint64_t per_fn = args.params.u64("blast_calls", 500000);
+            std::vector<int> fns;
+            for (size_t i = 0; i < table.size(); ++i)
+                if (table[i].tname[0] == 'f' && !strcmp(table[i].arch, "avx512f") && (only_fn.empty() || only_fn == table[i].name))
+                    fns.push_back((int)i);
+            uint64_t calls = 0;
+            for (int fn : fns)
+            {
+                const FnEntry& fe = table[(size_t)fn];
+                const bool f32 = fe.elem_size == 4;
+                const int ebits = f32 ? 8 : 11, mbits = f32 ? 23 : 52;
+                const uint64_t bias = f32 ? 127 : 1023, emax = (1ull << ebits) - 1;
+                auto build = [&](uint64_t i) -> Plan
+                {
+                    sim::Rng rng(sim::mix3(args.seed, sim::fnv1a_str(key(fe)), i));
+                    Op op;
+                    op.fn = fn;
+                    const unsigned mode = (unsigned)rng.below(4);
+                    const uint64_t centre = mode == 0 ? 1 + rng.below(emax - 1) : bias - 8 + rng.below(17);
+                    auto lane = [&]() -> uint64_t
+                    {
+                        uint64_t e = mode == 3 ? 1 + rng.below(emax - 1) : std::min<uint64_t>(emax - 1, std::max<uint64_t>(1, centre + rng.below(5)) - 2);
+                        uint64_t m = rng.next() & ((1ull << mbits) - 1);
+                        return ((uint64_t)rng.coin() << (ebits + mbits)) | (e << mbits) | m;
+                    };
+                    for (int k = 0; k < 32; ++k)
+                    {
+                        op.a[k] = k < fe.lanes ? lane() : 0;
+                        op.b[k] = 0;
+                    }
+                    if (fe.arity == 2 && fe.second_is_int)
+                        fill_int_lanes(rng, fe, op.b);
+                    else if (fe.arity == 2)
+                        for (int k = 0; k < fe.lanes; ++k)
+                            op.b[k] = lane();
+                    op.family = 10;
+                    op.companions = 3;
+                    op.binade = (int)centre;
+                    op.sign = 0;
+                    return Plan { op };
+                };
+                for (uint64_t i = args.offset; i < per_fn; i += args.stride)
+                {
+                    Plan pl = build(i);
+                    uint64_t t = 0;
+                    bool ex = false;
+                    run_call(pl[0], t, ex, nullptr);
+                    ++calls;
+                    ++c_calls;
+                    ++p_blast;
+                    c_ticks += t;
+                    c_blocks += last_blocks;
+                    if (ex)
+                    {
+                        uint64_t idx = ((uint64_t)fn << 40) | i;
+                        w.process(pl, idx, idx, [&]() { return build(i); });
+                    }
+                }
+            }
+            printf("%s\n", sim::json::dump(Value::object().set("blast", Value::object().set("functions", (unsigned long long)fns.size()).set("calls", (unsigned long long)calls))).c_str());
+            return true;
+        }
+
         // completeness backstop of the thorough tier (like C15's census): every float32 bit pattern through every unary float function on the
         // 16-lane avx512f instantiation, 16 consecutive patterns per call, both clocks running. The seeded search stays the deciding step - only it
         // mixes magnitudes within one batch - but the property's quantifier names the exhaustive float32 sweep, and 2^32 arguments are affordable.
@@ -785,6 +856,8 @@ namespace
         {
             if (args.cmd == "sweep")
                 return sweep_f32(args, w);
+            if (args.cmd == "blast")
+                return blast(args, w);
             if (args.cmd != "growth")
                 return false;
             Value tab = Value::object();
